@@ -255,7 +255,7 @@ end
 
 function Scope:pop_checkpoint()
   local oldcheckpoint = table.remove(self.checkpointstack)
-  self:merge_checkpoint(oldcheckpoint)
+  self:set_checkpoint(oldcheckpoint)
 end
 
 function Scope:add_symbol(symbol)
